@@ -118,6 +118,41 @@ theorem C55_witness_trunc : ¬ ParamsRoundTrip := by
 theorem C55_witness_panic : encodeRequest [(big, [])] [] = none := by
   simp [encodeRequest, requestRecords, writePairsLoop, panics, maxWrite, big_length]
 
+/-! ### response side -/
+
+/-- full-strength statement — FALSE for the code as it is: for every well-formed responder record sequence that
+    contains END_REQUEST, the stream handed to the HTTP response parser is the application's STDOUT stream. -/
+def StdoutOnly : Prop :=
+  ∀ (conn : Bytes) (rs : List Rec), parse conn = some rs → hasEnd rs = true →
+    readAll conn = (stdoutOf rs, End.eof)
+
+/-- What the code really delivers for EVERY well-formed record sequence with END_REQUEST: the contents of all
+    records before END_REQUEST, whatever their type (and request id), and a clean end of stream. -/
+theorem C55_response_stream (conn : Bytes) (rs : List Rec) (hp : parse conn = some rs) (he : hasEnd rs = true) :
+    readAll conn = (allBeforeEnd rs, End.eof) := by
+  have := readStream_parse conn.length conn rs hp he (conn.length + 1) [] (by omega)
+  simpa [readAll] using this
+
+/-- **C55_stdout_only (partial)**: if every record before END_REQUEST is STDOUT or empty (e.g. the empty STDERR
+    end-of-stream marker), the delivered stream is exactly the STDOUT stream. -/
+theorem C55_stdout_only_partial (conn : Bytes) (rs : List Rec) (hp : parse conn = some rs) (he : hasEnd rs = true)
+    (hso : ∀ r ∈ rs, r.typ = 6 ∨ r.typ = 3 ∨ r.content = []) :
+    readAll conn = (stdoutOf rs, End.eof) := by
+  rw [C55_response_stream conn rs hp he, allBeforeEnd_eq_stdoutOf rs hso]
+
+/-- **C55_witness_stderr**: a STDERR record "E" followed by END_REQUEST: the response stream is "E", the STDOUT stream is empty. -/
+theorem C55_witness_stderr : ¬ StdoutOnly := by
+  intro h
+  let recs : List (UInt8 × Bytes) := [(7, [69]), (3, [0, 0, 0, 0, 0, 0, 0, 0])]
+  have hp : parse ((recs.map fun r => frame r.1 1 r.2).flatten) = some (recs.map (toRec 1)) :=
+    parseRecs_frames 1 (by omega) recs (by intro r hr; simp [recs] at hr; rcases hr with rfl | rfl <;> simp) _ (Nat.le_refl _)
+  have he : hasEnd (recs.map (toRec 1)) = true := by decide
+  have h1 := h _ _ hp he
+  rw [C55_response_stream _ _ hp he] at h1
+  have h2 := congrArg Prod.fst h1
+  revert h2
+  decide
+
 /-! non-vacuity: a concrete request that meets the hypotheses and decodes -/
 example : (encodeRequest [([65], [66, 67])] [1, 2, 3]).bind decodeRequest = some ⟨[([65], [66, 67])], [1, 2, 3]⟩ :=
   C55_params_rt_partial _ _ (by intro p hp; simp at hp; subst hp; simp [maxWrite])
